@@ -748,6 +748,7 @@ func checkC04(c *Ctx, r *Report) {
 		return
 	}
 	ruleNibbles(c, r, "nibbles")
+	ruleBindEmission(c, r, "bind-emission")
 	vm, err := c.vmModel()
 	if err != nil {
 		r.bad("vm", "model", err.Error(), "")
@@ -855,4 +856,59 @@ func (c *Ctx) asFilterLoop(s ast.Stmt, isSource func(ast.Expr) bool) *filterLoop
 		}}
 	}
 	return nil
+}
+
+// ruleBindEmission: a bind statement compiles to exactly one BIND instruction
+// (opcode, type constant, option byte) and touches no other code: every bind
+// statement of the source is executed, so each one's runtime errors and the
+// "last one wins" order are the VM's to decide.
+func ruleBindEmission(c *Ctx, r *Report, rule string) {
+	r.rule(rule, 1, "on every diagnostic-free path a bind statement emits exactly [BIND, type-constant operand, option byte] through the emission primitives and writes nothing else into the code (no earlier instruction is patched, dropped or replaced)")
+	m, err := c.emitModel()
+	if err != nil {
+		r.bad(rule, "model", err.Error(), "")
+		return
+	}
+	e := m.Entries["decl"]
+	if e == nil {
+		r.bad(rule, "decl", "no analysis entry for decl", "")
+		return
+	}
+	pos := ""
+	if e.Decl != nil {
+		pos = c.pos(e.Decl.Pos())
+	}
+	n := 0
+	for _, o := range e.Outcomes {
+		isBind := false
+		for _, t := range o.Trace {
+			if t == "BIND" {
+				isBind = true
+			}
+		}
+		if !isBind {
+			continue
+		}
+		n++
+		var ops []string
+		for _, t := range o.Trace {
+			if t != "adv" && t != "loop{" && t != "}" {
+				ops = append(ops, t)
+			}
+		}
+		key := fmt.Sprintf("bind-statement#%d", n)
+		switch {
+		case len(o.Problems) > 0:
+			r.bad(rule, key, "compiling a bind statement "+strings.Join(o.Problems, "; "), pos)
+		case strings.Join(ops, " ") != "BIND v B":
+			r.bad(rule, key, fmt.Sprintf("a bind statement emits [%s]; it must emit exactly [BIND v B]", strings.Join(ops, " ")), pos)
+		default:
+			r.ok(rule, key, "emits BIND v B, nothing else")
+		}
+	}
+	if n == 0 {
+		r.bad(rule, "bind-statement", "no diagnostic-free path of decl() emits BIND", pos)
+	}
+	// nobody but the emission primitives writes code bytes (so no statement can erase or rewrite an earlier BIND)
+	c.ownership(r, rule, "Prog", "code", progOwners["code"], true)
 }
